@@ -232,6 +232,8 @@ class CompareFamily(Family):
             [P(lay_.PLAIN, lay_.TBLOB, 2), P(lay_.PLAIN, lay_.TBLOB, 2)],                  # manual fields only
             [P(lay_.PLAIN, lay_.TU8, 1), P(lay_.FIXED, lay_.TU8, 1)],                      # all-byte fixed list: whole-buffer paths
             [P(lay_.FIXED, lay_.TU8, 1), P(lay_.FIXED, lay_.TBYTE, 1)],                    # two spans in one run
+            [P(lay_.FIXED, lay_.TU8, 1), P(lay_.PLAIN, lay_.TU8, 1), P(lay_.FIXED, lay_.TU8, 1)],      # span, plain, span: the same bytes cut differently
+            [P(lay_.FIXED, lay_.TUINT, 2), P(lay_.PLAIN, lay_.TSINT, 2), P(lay_.PLAIN, lay_.TUINT, 2), P(lay_.FIXED, lay_.TUINT, 2)],
             [P(lay_.PLAIN, lay_.TU8, 1), P(lay_.VARYING, lay_.TU8, 1), P(lay_.PLAIN, lay_.TU8, 1)],
             [P(lay_.PLAIN, lay_.TU8, 1), P(lay_.VARYING, lay_.TU8, 1), P(lay_.PLAIN, lay_.TU8, 1), P(lay_.VARYING, lay_.TBYTE, 1)],
             [P(lay_.PLAIN, lay_.TUINT, 4), P(lay_.VARYING, lay_.TSINT, 2)],
